@@ -188,6 +188,8 @@ def extra_entries():
         def make(seed, missing_label=np.nan, classes=(0, 1), _c=cls_name, _kw=kw):
             k = {a: (dict(b) if isinstance(b, dict) else (b.copy() if isinstance(b, np.ndarray) else b))
                  for a, b in _kw.items()}
+            if "classes" in inspect.signature(getattr(P, _c)).parameters:
+                k["classes"] = list(classes)
             return getattr(P, _c)(missing_label=missing_label, random_state=seed, **k)
         out.append(zoo.Entry(name, cls_name, make, **meta))
 
@@ -199,8 +201,6 @@ def extra_entries():
     add("ProbCover(dict)", "ProbCover", {"cluster_algo_dict": {"n_init": 2}}, model=None, rows=False, cost=2)
     add("DropQuery(dict)", "DropQuery", {"cluster_algo_dict": {"n_init": 2}}, model="clf_embed", rows=False, cost=2)
     add("GreedySamplingX(metric_dict)", "GreedySamplingX", {"metric": "minkowski", "metric_dict": {"p": 1}}, model=None)
-    add("QueryByCommittee(sample_predictions)", "QueryByCommittee", {"method": "vote_entropy"}, model="ensemble",
-        samplewise=True)
     # caller-owned array / list / dict valued parameters (deliberately unsorted, float64, C-contiguous:
     # the form in which validation helpers hand back a view instead of a copy)
     cm = np.array([[0.0, 2.0], [1.0, 0.0]])
@@ -213,12 +213,10 @@ def extra_entries():
     add("ValueOfInformationEER(cost_matrix)", "ValueOfInformationEER", {"cost_matrix": cm}, model="clf", rows=False,
         cost=2)
     add("CostEmbeddingAL(cost_matrix,params)", "CostEmbeddingAL",
-        {"classes": [0, 1], "cost_matrix": cm, "mds_params": {"n_init": 1}, "nn_params": {"n_neighbors": 1}},
+        {"cost_matrix": cm, "mds_params": {"n_init": 1}, "nn_params": {"leaf_size": 20}},
         model=None, samplewise=True, cost=2)
     add("ContrastiveAL(nn_dict)", "ContrastiveAL", {"nearest_neighbors_dict": {"n_neighbors": 2}}, model="clf_embed",
         cost=2)
-    add("QueryByCommittee(predictions_dict)", "QueryByCommittee",
-        {"method": "KL_divergence", "sample_predictions_dict": {}}, model="ensemble", samplewise=True)
     add("ExpectedModelOutputChange(dict)", "ExpectedModelOutputChange",
         {"integration_dict": {"method": "assume_linear"}}, model="reg_prob", cost=2)
     add("GreedySamplingTarget(dicts)", "GreedySamplingTarget",
